@@ -20,7 +20,7 @@ CLAIMED = {
   "Ring buffer against a reference FIFO: all operation sequences of length L from New(size), sizes 1..4, plus one inductive Push/Pop/PopMany step from every valid ring state of capacity <= maxmod (payloads symbolic); stash/unstash order and the kill flag on the real Context; per-sender FIFO for two messages of one sender racing a second sender under every interleaving within K steps (tsgen).",
   "Bounds L, size, maxmod, K in evidence; sync.Mutex and sync/atomic modelled in the engine.",
   "DESIGN.md §3 C02"),
- "C03": ("symgo", "model_checking", TECH_A,
+ "C03": ("symgo+tsgen", "model_checking", TECH_A + "; mailbox wake-up job: " + TECH_B,
   LEMMA + "One send over the product reference provenance x target state on the real tell/findMailbox/HandleEnvelop/guard/eventStream code: exactly one fate (processed, stashed, one dead letter); bounded work after system stop.",
   "One deterministic delivery schedule; recording mailboxes; the (provenance, state) cells are enumerated by hand.",
   "DESIGN.md §3 C03"),
